@@ -887,6 +887,13 @@ class TaskGroup(abc.TaskGroup):
 
                 exc = e
 
+            if not handle._finished_event.is_set():
+                # The task was cancelled before it got to run its first step, so
+                # TaskHandle._run_coro() never got the chance to record the outcome
+                handle._exception = exc
+                handle._finished_event.set()
+                coro.close()
+
             if exc is not None:
                 # The future can only be in the cancelled state if the host task was
                 # cancelled, so return immediately instead of adding one more
